@@ -129,6 +129,20 @@ pub fn replay(case: &Case) -> Result<Verdict, String> {
     let st = parse_ty(case.get("ty")?)?;
     let n = case.usize("n")?;
     if let Some(kind) = case.opt("kind") {
+        if kind == "tryfrom" {
+            let m = case.usize("m")?;
+            let t = case.words("t")?;
+            return Ok(match guarded(|| super::c10::try_from_dyn(m, &t, n)) {
+                Ok(Ok(w)) => {
+                    if well_formed(n, &w) {
+                        Ok(())
+                    } else {
+                        fail(format!("a well-formed Lut{}", n), format!("blocks [{}]", fmt_words(&w)))
+                    }
+                }
+                _ => Ok(()),
+            });
+        }
         if kind == "pair" {
             let a = case.words("a")?;
             let b = case.words("b")?;
@@ -428,7 +442,7 @@ fn history_of(nodes: &[Node], mut k: usize) -> (String, Vec<String>) {
 /// the differential violation.
 fn reach<L: Tab>(run: &Run, st: bool, n: usize, inits: Vec<String>, saturate: bool, depth: usize, cap: usize) {
     let name = format!("REACH n={} {} from {} constructor/parser outputs, depth<={}{}", n, L::tname(n), inits.len(), depth, if saturate { ", binary operands = visited set (saturation)" } else { "" });
-    run.section_seq(&name, false, "filled in below", |l| {
+    run.section_seq(&name, saturate, if saturate { "closed to a fixpoint: every operation of the alphabet from every reachable state, binary operands over the whole visited set" } else { "depth- and cap-bounded (see reach_* in the coverage)" }, |l| {
         let mut nodes: Vec<Node> = Vec::new();
         let mut states: Vec<L> = Vec::new();
         let mut visited: HashMap<Vec<u64>, usize> = HashMap::new(); // value vector -> node
@@ -736,6 +750,64 @@ fn ext_pairs_large<L: Tab>(run: &Run, st: bool, n: usize) {
     });
 }
 
+/// Conversions between sizes: whatever `LutN::try_from(Lut)` returns as Ok must satisfy the
+/// invariant (that it fails exactly when the sizes differ is C10's check).
+fn tryfrom_base(run: &Run) {
+    let mut cases: Vec<(usize, usize, TT)> = Vec::new();
+    for m in 0..=9usize {
+        let pats = alpha::word_patterns(m, run.seed, 0);
+        let mut ts = vec![TT::zero(m).not(), pats[pats.len() - 1].clone(), pats[4].clone()];
+        if m > 0 {
+            ts.push(TT::from_fn(m, |a| (a >> (m - 1)) & 1 != 0));
+        }
+        for big in 0..=12usize {
+            for t in &ts {
+                cases.push((m, big, t.clone()));
+            }
+        }
+    }
+    let total = cases.len() as u64;
+    run.section("BASE conversions Lut(m) -> LutN for all m <= 9, N <= 12: every Ok result is well-formed and extensional", false, "4 tables per source size (all-ones, irregular, top projection); 10 x 13 size pairs", total, 16, |r, l| {
+        for k in r {
+            let (m, big, t) = &cases[k as usize];
+            l.states += 1;
+            l.transitions += 1;
+            l.validated += 1;
+            let res = guarded(|| super::c10::try_from_dyn(*m, &t.w, *big));
+            match res {
+                Ok(Err(())) => l.tr(*m as u64, *big as u64, 0),
+                Ok(Ok(w)) => {
+                    fn inv<L: Tab>(n: usize, w: &[u64]) -> Verdict {
+                        // the converted table as the subject holds it: rebuild through the same conversion is not
+                        // possible for malformed blocks, so judge the returned block view directly, then the object
+                        if !well_formed(n, w) {
+                            return fail(format!("a well-formed Lut{}: {} block(s), no bit at a position >= {}", n, nwords(n), nbits(n)), format!("blocks [{}]", fmt_words(w)));
+                        }
+                        let s: L = mk(n, w);
+                        invariant(&s, n, true)
+                    }
+                    let v = if *big <= 12 { for_static!(*big, inv(*big, &w)) } else { Ok(()) };
+                    match v {
+                        Ok(()) => {
+                            l.nontrivial += 1;
+                            l.tr(*m as u64, *big as u64, hash_words(&w));
+                        }
+                        Err(e) => {
+                            let key = format!("tryfrom|{:02}|{:02}|{}", m, big, fmt_words(&t.w));
+                            l.violation(key, "C02/LutN/init:try_from", format!("ty=S;n={};kind=tryfrom;m={};t={}", big, m, fmt_words(&t.w)), format!("LutN::try_from(Lut of {} variables) for N={}: {}", m, big, e.0), e.1);
+                        }
+                    }
+                }
+                Err(p) => {
+                    // a panic instead of Err is C10's (and C17's) business; not a malformed table
+                    l.tr(*m as u64, *big as u64, 1);
+                    let _ = p;
+                }
+            }
+        }
+    });
+}
+
 pub fn run(run: &Run) {
     run.set_rule("state = a table obtained through the public API (identified by its exported block view); transition = one public call with in-range arguments; non-trivial = a state other than a fresh constructor output / a successor different from its predecessor / a pair of different tables");
     run.assume("well-formedness is judged by model::tt::well_formed on the exported blocks(); the reference successor is the model's index-map / pointwise step");
@@ -756,6 +828,7 @@ pub fn run(run: &Run) {
     fn pl<L: Tab>(run: &Run, st: bool, n: usize) {
         ext_pairs_large::<L>(run, st, n)
     }
+    tryfrom_base(run);
     let maxn = 14;
     for n in 0..=maxn {
         bc::<volute::Lut>(run, false, n);
